@@ -120,7 +120,8 @@ def kf_many_dollars(sub, inp, fail):
     if sub != "roundtrip" or not fail[0].startswith("roundtrip:") or inp["opts"] == "no-math":
         return False
     t = inp["text"]
-    pos = [m.start() for m in re.finditer(r"(?<!\\)\$", t)]
+    # a dollar is escaped iff an odd number of backslashes stands before it ('\\\\$' is a line break followed by a live dollar)
+    pos = [m.end() - 1 for m in re.finditer(r"(?<!\\)(?:\\\\)*\$", t)]
     if len(pos) >= 3:
         return True
     if len(pos) == 2:
